@@ -468,14 +468,19 @@ run_netbuf(const int * ops, int n)
 		BEGIN_OP();
 		R = netbuf_read_init(fd);
 		if (R == NULL) { op_failed("netbuf_read_init"); if (persistent_failing()) goto out; R = netbuf_read_init(fd); if (R == NULL) { viol("retry", "netbuf_read_init failed again"); goto out; } } else op_ok("netbuf_read_init", 0);
-		{ size_t want[2] = {100, 8000}; int w;
+		{ size_t want[2] = {100, 4500}; int w; size_t consumed = 0;
 		for (w = 0; w < 2; w++) {
 			int rc;
 			nb_cbs = 0;
 			BEGIN_OP(); rc = netbuf_read_wait(R, want[w], nb_cb, NULL);
 			if (rc != 0) { op_failed("netbuf_read_wait"); if (persistent_failing()) break; BEGIN_OP(); rc = netbuf_read_wait(R, want[w], nb_cb, NULL); if (rc != 0) { viol("retry", "netbuf_read_wait failed again"); break; } } else op_ok("netbuf_read_wait", 0);
 			if (spin(&nb_cbs, 8) != 0) break;
-			if (nb_cbs == 1 && nb_status == 0) { uint8_t * p; size_t l; netbuf_read_peek(R, &p, &l); if (l < want[w] || memcmp(p, big, want[w]) != 0) viol("contents", "reader window differs from the stream after wait(%zu)", want[w]); }
+			if (nb_cbs == 1 && nb_status == 0) {
+				uint8_t * p; size_t l; netbuf_read_peek(R, &p, &l);
+				if (l < want[w] || memcmp(p, big + consumed, want[w]) != 0) viol("contents", "reader window differs from the stream after wait(%zu)", want[w]);
+				/* variant: drain the reader completely before the wait that needs a larger buffer */
+				if (ops[1] == 1 && w == 0) { netbuf_read_consume(R, l); consumed += l; }
+			}
 			else if (nb_cbs == 1 && !(nb_status == -1 && alloc_failed_count() > 0)) viol("result", "wait completed with status %d", nb_status);
 			if (nb_cbs == 0) break;
 		} }
@@ -673,7 +678,7 @@ main(int argc, char ** argv)
 	f = addfam("timerqueue", run_tq, TQ_NOPS, D); add_histories(f, TQ_NOPS, D);
 	f = addfam("events", run_events, EV_NOPS, D); add_histories(f, EV_NOPS, D);
 	f = addfam("network", run_net, 0, 0); for (i = 0; i < 2; i++) { add_unit(f, 0, i); add_unit(f, 1, i); add_unit(f, 3, i); } add_unit(f, 2, 0);
-	f = addfam("netbuf", run_netbuf, 0, 0); add_unit(f, 0, 0); add_unit(f, 1, 0);
+	f = addfam("netbuf", run_netbuf, 0, 0); add_unit(f, 0, 0); add_unit(f, 1, 0); add_unit(f, 0, 1);
 	f = addfam("http", run_http, 0, 0); for (i = 0; i < 4; i++) add_unit(f, i, 0);
 	f = addfam("functions", run_func, 0, 0); for (i = 0; i < NFUNC; i++) add_unit(f, i, 0);
 	vf_info("bounds", "containers/event-loop: every operation history of depth <= %d (queue %d, map %d); every allocation k of each scenario refused once and persistently", D, D + 2, D + 1);
